@@ -100,7 +100,7 @@ CHECKS = {
             'PDUs, 40 semantically hostile P-DATA streams and Hypothesis-generated mixes under varying '
             'segmentation, followed by the peer closing and ARTIM passing; the loop must return normally, never '
             'block, write only well-formed PDUs, end idle and closed, tell an engaged user, and answer certainly '
-            'undecodable PDUs with A-ABORT. Bursts of 1500 / 5000 of the smallest PDUs there are, in every state.',
+            'undecodable PDUs with A-ABORT. Bursts of 1500 / 5000 of the smallest PDUs there are, in every state. A third of the cases once more with a peer that is gone once its bytes are out: every write of the provider fails with ECONNRESET.',
             'Hang = structural (blocking recv with nothing scheduled, or 40000 scheduling points). Leniently '
             'accepted malformed PDUs are not violations. 4 GiB declared lengths are not streamed.',
             'simnet', 'DESIGN.md#C12'),
@@ -118,7 +118,7 @@ CHECKS = {
             'Every standard (result, source, reason) triple and abort (source, reason) pair, generated values over '
             '0-255, four positions of the event (before, between, inside a half-consumed C-FIND stream, during a '
             'multi-fragment C-STORE), eight ways of leaving request_association (normally, through Exceptions, a BaseException, an abandoned generator; also when the peer refused all or most contexts), raw-socket loopback peers incl. release with responses in flight: the PDUs handed to the provider '
-            'and the exception type/fields seen by the caller are compared with what the other side did. One long-lived entity answers 300+ associations in a row (refused / served / aborted), each judged like the first. Loopback: an A-ABORT arriving while a 24 MiB C-STORE is being sent.',
+            'and the exception type/fields seen by the caller are compared with what the other side did. One long-lived entity answers 300+ associations in a row (refused / served / aborted), each judged like the first. Loopback: an A-ABORT arriving while a 24 MiB C-STORE is being sent. A live association left through the error of a nested second association (refused / aborted / released by its own peer) must be aborted.',
             'Scripted provider (vf/fakedul.py); what the provider itself does with these PDUs is C04/C05.',
             'fakedul', 'DESIGN.md#C14'),
     'C15': (True, 'exploration',
@@ -135,7 +135,7 @@ CHECKS = {
             'modality_work_list_scp (responses read from wire bytes: count, order, statuses, identifiers, one '
             'final response without data set, query delivered unchanged) and through qr_find_scu / '
             'modality_work_list_scu / c_find() against a scripted peer (exact pairs in order, stop after the first '
-            'non-pending status, receive() calls counted); handler failing mid-stream, query object re-used, C-ECHO between preparing and iterating, a second association alive meanwhile negotiated differently for the same class.',
+            'non-pending status, receive() calls counted); handler failing mid-stream, query object re-used, C-ECHO between preparing and iterating, a second association alive meanwhile negotiated differently for the same class; pending statuses handed over as classified Status, plain code, Status of the bare code, library constant.',
             'Scripted provider; data sets compared by canonical re-encoding with pydicom.', 'fakedul', 'DESIGN.md#C16'),
     'C17': (True, 'exploration',
             'one Hypothesis search per provider callable (collect-then-shrink), reference-encoded requests, responses read from wire bytes',
@@ -143,7 +143,7 @@ CHECKS = {
             'n_action (+ its N-EVENT-REPORT on the sub-association) and n_event_report are driven with generated '
             'message ids (16-bit boundaries enumerated), UIDs, context ids and handler outcomes incl. '
             'EventHandlingError; every response must be of the matching type, on the arrival context, with the '
-            'message id of the request / SOP class / instance and the right status, and every request must be answered. A retry with the same Transaction UID after a commitment result that could not be reported.',
+            'message id of the request / SOP class / instance and the right status, and every request must be answered. A retry with the same Transaction UID after a commitment result that could not be reported. The C-STORE responses of the C-GET user (enumerated peer scripts, sub-operation requests also arriving on the other negotiated storage context).',
             'Where no failure status is documented for EventHandlingError any Failure-class status is accepted.',
             'fakedul', 'DESIGN.md#C17'),
     'C19': (True, 'exploration',
@@ -153,7 +153,7 @@ CHECKS = {
             'primary association a pending response after every sub-operation with true counters, then exactly '
             'one final response. C-GET user: scripted peers interleaving stores and pending responses; one '
             'correlated C-STORE-RSP per request, each instance handed to the caller once and in order, iteration '
-            'ends exactly at the final response.',
+            'ends exactly at the final response; from the third instance on the peer may use the other negotiated storage context.',
             '"performed" = completed or completed+failed+warning; final C-MOVE status unconstrained.',
             'fakedul', 'DESIGN.md#C19'),
     'C20': (True, 'exploration',
